@@ -296,6 +296,29 @@ def run(ctx: Ctx):
                                 ops = [("Startup",), (op, g, a), ("Subscribe", used[0], "ok"), ("Unsubscribe", used[-1], "ok")]
                                 traces.append(execute(vtab, ops, family))
                                 metas.append({"family": family, "init": vtab, "ops": ops})
+    # ---- free entries that still carry a group id (what unsubscribe leaves behind: endpoint 0, id kept), including the id of a
+    #      group that is live at another index; and restarts (a second start-up scan over the table the host itself produced)
+    for family in ("ember", "sl"):
+        for n in range(1, maxn + 1):
+            cells = list(groups) + ["free"] + [["stale", g] for g in groups]
+            for k, t in enumerate(itertools.product(cells, repeat=n)):
+                live = [c for c in t if isinstance(c, str) and c != "free"]
+                if len(live) != len(set(live)) or not any(isinstance(c, list) for c in t):
+                    continue
+                if family == "sl" and ctx.quick and k % 3:
+                    continue
+                for g in groups:
+                    for op in ("Subscribe", "Unsubscribe"):
+                        ops = [("Startup",), (op, g, "ok")]
+                        traces.append(execute(list(t), ops, family))
+                        metas.append({"family": family, "init": list(t), "ops": ops})
+            for tab in init_tables(n, groups):
+                for g in groups:
+                    g2 = groups[(groups.index(g) + 1) % len(groups)]
+                    ops = [("Startup",), ("Subscribe", g, "ok"), ("Unsubscribe", g, "ok"), ("Subscribe", g, "ok"), ("Startup",),
+                           ("Subscribe", g, "ok"), ("Subscribe", g2, "ok"), ("Startup",), ("Unsubscribe", g, "ok"), ("Subscribe", g2, "ok")]
+                    traces.append(execute(tab, ops, family))
+                    metas.append({"family": family, "init": tab, "ops": ops})
     # ---- random long histories beyond the model's bounds (code -> spec)
     big = ("g1", "g2", "g3", "g4", "g5")
     nrand = 60 if ctx.quick else 600
@@ -310,10 +333,12 @@ def run(ctx: Ctx):
             tab.append(c)
         if k % 3 == 0:
             tab = [c if c == "free" else ["ep", c, ctx.rng.choice((1, 2, 3, 255))] for c in tab]
+        elif k % 3 == 1:
+            tab = [["stale", ctx.rng.choice(big)] if (c == "free" and ctx.rng.random() < 0.6) else c for c in tab]
         ops = [("Startup",)]
         for _ in range(ctx.rng.randint(5, 25 if ctx.quick else 60)):
             r = ctx.rng.random()
-            if r < 0.04:
+            if r < 0.08:
                 ops.append(("Startup",))
             else:
                 ops.append((ctx.rng.choice(("Subscribe", "Unsubscribe")), ctx.rng.choice(big),
@@ -325,7 +350,7 @@ def run(ctx: Ctx):
     ctx.evaluations = len(traces)
     ctx.distinct_nontrivial = len({str(m) for m in metas})
     ctx.rule = ("every (state, operation, answer) pair of the TLC state graph executed on the real Multicast "
-                "from every initial table (each group at most once, N<=%d), both status families; plus seeded "
+                "from every initial table (each group at most once, N<=%d), both status families; tables whose free entries carry left-over group ids (also the id of a live group) and restart sequences; plus seeded "
                 "random histories with 5 groups and N<=6; a case is a distinct (initial table, operation list)" % maxn)
     ctx.add_sample({"init": metas[len(metas) // 3]["init"], "ops": metas[len(metas) // 3]["ops"],
                     "trace": traces[len(traces) // 3]})
